@@ -214,6 +214,37 @@ package logqlengine
 //@   ensures[rejects-iff-matcher-rejected] (ret1 == nil) == ((pred.Op == logql.OpEq || pred.Op == logql.OpNotEq) || ((pred.Op == logql.OpRe || pred.Op == logql.OpNotRe) && pred.Re != nil))
 //@   ensures[label-semantics] ret1 == nil ==> typeis[*LabelMatcher](ret0) && as[*LabelMatcher](ret0).name == pred.Label && as[*LabelMatcher](ret0).matcher.Match(s) == specMatch(pred.Op, true, pred.Value, pred.Re, s)
 
+// A label predicate is built structurally: `a and b` is the conjunction and `a or b` the
+// disjunction of the processors built from a and from b (no rewriting of either side, no other
+// combinator), parentheses are transparent, and a leaf goes to the builder of its kind.
+//@ func buildIPLabelFilter
+//@   capture bm = call(buildIPMatcher, 0)
+//@   modifies nothing
+//@   ensures[matcher-of-this-filter] bm_called && bm_a0 == pred.Op && bm_a1 == pred.Value && (bm_r1 != nil) == (ret1 != nil)
+//@   ensures[fields] ret1 == nil ==> typeis[*IPLabelFilter](ret0) && as[*IPLabelFilter](ret0).name == pred.Label && same(as[*IPLabelFilter](ret0).matcher, bm_r0)
+
+//@ func buildLabelFilter
+//@   capture bp = call(buildLabelPredicate, 0)
+//@   ensures[predicate-of-the-stage] bp_called && same(bp_a0, old(stage.Pred)) && same(ret0, bp_r0) && same(ret1, bp_r1)
+
+//@ func buildLabelPredicate
+//@   capture l = call(buildLabelPredicate, 0)
+//@   capture r = call(buildLabelPredicate, 1)
+//@   capture x = call(buildLabelPredicate, 2)
+//@   capture lm = call(buildLabelMatcher, 0)
+//@   capture df = call(buildDurationLabelFilter, 0)
+//@   capture bf = call(buildBytesLabelFilter, 0)
+//@   capture nf = call(buildNumberLabelFilter, 0)
+//@   capture ipf = call(buildIPLabelFilter, 0)
+//@   modifies nothing
+//@   ensures[both-sides-are-built] typeis[*logql.LabelPredicateBinOp](pred) && ret1 == nil ==> l_called && r_called && same(l_a0, old(as[*logql.LabelPredicateBinOp](pred).Left)) && same(r_a0, old(as[*logql.LabelPredicateBinOp](pred).Right)) && l_r1 == nil && r_r1 == nil
+//@   ensures[and-is-the-conjunction-of-both-sides] typeis[*logql.LabelPredicateBinOp](pred) && ret1 == nil && old(as[*logql.LabelPredicateBinOp](pred).Op) == logql.OpAnd ==> typeis[*AndLabelMatcher](ret0) && same(as[*AndLabelMatcher](ret0).Left, l_r0) && same(as[*AndLabelMatcher](ret0).Right, r_r0)
+//@   ensures[or-is-the-disjunction-of-both-sides] typeis[*logql.LabelPredicateBinOp](pred) && ret1 == nil && old(as[*logql.LabelPredicateBinOp](pred).Op) == logql.OpOr ==> typeis[*OrLabelMatcher](ret0) && same(as[*OrLabelMatcher](ret0).Left, l_r0) && same(as[*OrLabelMatcher](ret0).Right, r_r0)
+//@   ensures[no-other-connective] typeis[*logql.LabelPredicateBinOp](pred) && old(as[*logql.LabelPredicateBinOp](pred).Op) != logql.OpAnd && old(as[*logql.LabelPredicateBinOp](pred).Op) != logql.OpOr ==> ret1 != nil
+//@   ensures[a-failing-side-fails-the-predicate] (l_called && l_r1 != nil) || (r_called && r_r1 != nil) ==> ret1 != nil
+//@   ensures[parentheses-are-transparent] typeis[*logql.LabelPredicateParen](pred) ==> x_called && same(x_a0, old(as[*logql.LabelPredicateParen](pred).X)) && same(ret0, x_r0) && same(ret1, x_r1)
+//@   ensures[leaf-goes-to-the-builder-of-its-kind] (typeis[*logql.LabelMatcher](pred) ==> lm_called && same(ret0, lm_r0) && same(ret1, lm_r1)) && (typeis[*logql.DurationFilter](pred) ==> df_called && same(df_a0, as[*logql.DurationFilter](pred)) && same(ret0, df_r0) && same(ret1, df_r1)) && (typeis[*logql.BytesFilter](pred) ==> bf_called && same(bf_a0, as[*logql.BytesFilter](pred)) && same(ret0, bf_r0) && same(ret1, bf_r1)) && (typeis[*logql.NumberFilter](pred) ==> nf_called && same(nf_a0, as[*logql.NumberFilter](pred)) && same(ret0, nf_r0) && same(ret1, nf_r1)) && (typeis[*logql.IPFilter](pred) ==> ipf_called && same(ipf_a0, as[*logql.IPFilter](pred)) && same(ret0, ipf_r0) && same(ret1, ipf_r1))
+
 //@ func buildLineFilter
 //@   logical s string
 //@   ensures[line-semantics] ret1 == nil && !stage.IP ==> typeis[*LineFilter](ret0) && as[*LineFilter](ret0).matcher.Match(s) == specMatch(stage.Op, false, stage.Value, stage.Re, s)
@@ -851,8 +882,12 @@ package logqlengine
 //@   capture er = call(d.Err, 0)
 //@   modifies set.labels[*]
 //@   ensures[decoder-error-reported] er_called && same(ret0, er_r0)
+//@   capture srec = call(d.ScanRecord, 0)
+//@   capture skv = call(d.ScanKeyval, 0)
 //@   loop 0 modifies set.labels[*]
 //@   loop 1 modifies set.labels[*]
+//@   loop 0 exit_ensures[every-record-is-scanned] srec_called && !srec_r0
+//@   loop 1 exit_ensures[every-pair-of-a-record-is-scanned] skv_called && !skv_r0
 //@   loop 1 body_ensures[requested-pair-becomes-mapped-label] key_called && (has(e.labels, string(key_r0)) ==> val_called && has(set.labels, e.labels[string(key_r0)]) && same(set.labels[e.labels[string(key_r0)]], pcommon.NewValueStr(string(val_r0))))
 //@   loop 1 body_ensures[unrequested-pair-skipped] !has(e.labels, string(key_r0)) ==> !val_called
 
@@ -863,8 +898,12 @@ package logqlengine
 //@   capture er = call(d.Err, 0)
 //@   modifies set.labels[*]
 //@   ensures[decoder-error-reported] er_called && same(ret0, er_r0)
+//@   capture srec = call(d.ScanRecord, 0)
+//@   capture skv = call(d.ScanKeyval, 0)
 //@   loop 0 modifies set.labels[*]
 //@   loop 1 modifies set.labels[*]
+//@   loop 0 exit_ensures[every-record-is-scanned] srec_called && !srec_r0
+//@   loop 1 exit_ensures[every-pair-of-a-record-is-scanned] skv_called && !skv_r0
 //@   loop 1 body_ensures[pair-becomes-label-under-its-sanitised-name] key_called && val_called && has(set.labels, logql.Label(otelstorage.KeyToLabel(string(key_r0)))) && same(set.labels[logql.Label(otelstorage.KeyToLabel(string(key_r0)))], pcommon.NewValueStr(string(val_r0)))
 
 //@ scope regexp.go
